@@ -201,7 +201,7 @@ mod verif_chain_kb {
             }
         }}
     }}
-    //@harness chain_kb_spec_n3 Kb fn=- bound="unions of at most 3 intervals" timeout=300
+    //@harness chain_kb_spec_n3 Kb fn=spec(diff_witness) bound="unions of at most 3 intervals" timeout=300
     spec_harness!(chain_kb_spec_n3, 3);
 
     // ---------------- operations on two canonical chains ----------------------------------------
@@ -330,13 +330,11 @@ mod verif_chain_kb {
             assert!(canonical_variants(c.as_slice()), "from_iter re-creates every block with Block::new (Id iff single number)");
         }}
     }}
-    //@harness chain_kb_from_iter_sorted_n2 Kb fn=OwnedChain::from_iter bound="at most 2 input blocks, ascending lower bounds (fast path), bounds and probe symbolic" timeout=900
-    from_iter_body!(chain_kb_from_iter_sorted_n2, 4, 2, false, true, #[kani::stub(crate::repository::resources::chain::from_iter_unsorted, no_unsorted)]);
-    //@harness chain_kb_from_iter_sorted_n3 Kb fn=OwnedChain::from_iter bound="at most 3 input blocks, ascending lower bounds (fast path), bounds and probe symbolic" timeout=1800 thorough
+    //@harness chain_kb_from_iter_sorted_n3 Kb fn=OwnedChain::from_iter bound="at most 3 input blocks, ascending lower bounds (fast path), bounds and probe symbolic" timeout=900
     from_iter_body!(chain_kb_from_iter_sorted_n3, 5, 3, false, true, #[kani::stub(crate::repository::resources::chain::from_iter_unsorted, no_unsorted)]);
-    //@harness chain_kb_from_iter_unsorted_n2 Kb fn=OwnedChain::from_iter,from_iter_unsorted,merge_or_add_block bound="exactly 2 input blocks, second starts below the first (slow path), bounds and probe symbolic" timeout=1800
+    //@harness chain_kb_from_iter_unsorted_n2 Kb fn=OwnedChain::from_iter,from_iter_unsorted,merge_or_add_block bound="exactly 2 input blocks, the second starts below the first (slow path), bounds and probe symbolic" timeout=900
     from_iter_body!(chain_kb_from_iter_unsorted_n2, 4, 2, true, false);
-    //@harness chain_kb_from_iter_unsorted_n3 Kb fn=OwnedChain::from_iter,from_iter_unsorted,merge_or_add_block bound="exactly 3 input blocks, lower bounds not ascending (slow path), bounds and probe symbolic" timeout=3600 thorough
+    //@harness chain_kb_from_iter_unsorted_n3 Kb fn=OwnedChain::from_iter,from_iter_unsorted,merge_or_add_block bound="exactly 3 input blocks, lower bounds not ascending (slow path), bounds and probe symbolic" timeout=1800
     from_iter_body!(chain_kb_from_iter_unsorted_n3, 5, 3, true, false);
 }
 //@end
